@@ -939,10 +939,15 @@ class BisectionZD(Bisection1D):
 
         negative_excess_values = [v for v in values if v <= 0.0]
 
-        excess_of_interest = max(negative_excess_values)
+        domain = self.coordinates_domain_nested[selection_key_outer]
+        if negative_excess_values:
+            excess_of_interest = max(negative_excess_values)
+        else:
+            # no evaluated field meets the limits: the sub-search continued with its largest allowed field (it would
+            # have raised otherwise), so that is the field to return
+            excess_of_interest = values[max(range(len(keys)), key=lambda j: len(domain[keys[j]]))]
         # as in Bisection1D.search: when the excess is not monotone along the list the least negative excess does not
         # belong to the smallest field, so take the smallest evaluated field that meets the limits
-        domain = self.coordinates_domain_nested[selection_key_outer]
         for _, val in sorted(zip([len(domain[k]) for k in keys], values)):
             if val <= 0.0:
                 excess_of_interest = val
